@@ -423,10 +423,8 @@ def judge(impl_line, model_line, std):
         return ["implementation: %s" % impl_line[:200]], False, False
     if not model_line.startswith("FIX "):
         return ["model driver: %s" % model_line[:200]], False, False
-    I, Mo = fields(impl_line), fields(model_line)
-    want = Mo if FIXED else None
-    unf = {}
-    # the model line carries the fixed result first, then UNFIXED FIX.. VAL..
+    I = fields(impl_line)
+    # the model line carries the result of the repaired loop first, then "UNFIXED FIX .. VAL .." for the pinned loop
     parts = model_line.split("\tUNFIXED ")
     mfixed = fields(parts[0])
     munf = fields(parts[1]) if len(parts) > 1 else {}
@@ -530,6 +528,7 @@ def run(ctx):
             "hidden_bad_cases(row28 shape)": 0, "clean_removed_something": 0, "validator_issue_tokens": 0,
             "relation_kinds": {}, "units_situations": {}, "iface_before": {}}
     nviol = 0
+    n_unfixed_like = 0
     seen_known = False
     for i, ((label, script), a, b) in enumerate(zip(cases, impl, model)):
         problems, hb, unfixed_like = judge(a, b, std)
@@ -576,6 +575,8 @@ def run(ctx):
             seen_known = True
             continue
         nviol += 1
+        if unfixed_like:
+            n_unfixed_like += 1
         if nviol <= 4:
             small = script
             try:
@@ -604,6 +605,9 @@ def run(ctx):
     ctx.cov["input_distribution"] = hist
     ctx.cov["traces_validated_against_impl"] = len(cases)
     ctx.log("hist: %s" % json.dumps({k: v for k, v in hist.items() if not isinstance(v, dict)}))
+    if nviol:
+        ctx.notes.append("%d failing cases; %d of them are exactly the behaviour of the unrepaired early-exit loop (row 28, fixes/C19-interface-early-exit.diff) on a case where the two loops differ" % (nviol, n_unfixed_like))
+        ctx.log(ctx.notes[-1])
 
 
 def replay(ctx, path):
